@@ -72,9 +72,14 @@ def oracle_c01(tr):
         return None
     allow = [0] * tr.nb
     exempt = [False] * tr.nb
+    ra = -1
     for op, res, b0, a0, b1, a1, now, prices in walk(tr):
+        if op[0] == 20:
+            ra = op[1]
         if res != "OK":
             continue
+        if op[0] == 4 and op[4] == 1 and ra == op[1] and b0[op[2]]["flags"] & 32:
+            exempt[op[2]] = True       # risk admin's token-less repay_all on a flagged bank: sanctioned exception
         for k in range(tr.nb):
             if b1[k]["op_state"] == 3:
                 exempt[k] = True           # wiped-out bank: sanctioned exception
